@@ -1464,6 +1464,61 @@ XPath::getMatchScore(
 
 
 
+XPath::eMatchScore
+XPath::getMatchScore(
+            XalanNode*              node,
+            const PrefixResolver&   resolver,
+            XPathExecutionContext&  executionContext,
+            size_t                  theAlternative) const
+{
+    assert(node != 0);
+
+    eMatchScore     score = eMatchScoreNone;
+
+    if(m_expression.getOpCodeMapValue(0) != XPathExpression::eOP_MATCHPATTERN)
+    {
+        // Not a match pattern: report the error as usual.
+        return getMatchScore(node, resolver, executionContext);
+    }
+
+    // Find the alternative...
+    OpCodeMapPositionType   opPos =
+        m_expression.getInitialOpCodePosition() + 2;
+
+    while(theAlternative > 0 &&
+          m_expression.getOpCodeMapValue(opPos) == XPathExpression::eOP_LOCATIONPATHPATTERN)
+    {
+        opPos = m_expression.getNextOpCodePosition(opPos);
+
+        --theAlternative;
+    }
+
+    if (m_expression.getOpCodeMapValue(opPos) == XPathExpression::eOP_LOCATIONPATHPATTERN)
+    {
+        const PrefixResolver* const     theCurrentResolver =
+            executionContext.getPrefixResolver();
+
+        if (theCurrentResolver == &resolver)
+        {
+            score = locationPathPattern(executionContext, *node, opPos);
+        }
+        else
+        {
+            // Push and pop the PrefixResolver...
+            const PrefixResolverSetAndRestore   theSetAndRestore(
+                                                    executionContext,
+                                                    theCurrentResolver,
+                                                    &resolver);
+
+            score = locationPathPattern(executionContext, *node, opPos);
+        }
+    }
+
+    return score;
+}
+
+
+
 inline const XalanDOMString*
 getStringFromTokenQueue(
             const XPathExpression&          expression,
